@@ -8,16 +8,20 @@
 
    The file system is a finite map (DESIGN section 10): a path below the root is the list of its directory
    components plus its base name; an entry is a regular file (contents, modification time) or a directory.
+   A modification time is an INTEGER (Z): nanoseconds relative to the Unix epoch, negative before 1970, with no
+   bound in either direction.  Go keeps a time.Time read from the file system as (seconds, nanoseconds) and
+   time.Time.After compares the pairs exactly, so comparing the integers is what the code does for every time the
+   file system can hold (sub-second differences included); nothing in the model or the theorems assumes a sign.
    Symbolic links, permissions, I/O errors other than "does not exist" are not modelled.
    `generate` is an oracle: parser.Parse + generator.Generate(WithFileName(rel path)) + format.Source of ONE
    file; [None] = any of the three failed. *)
 From Coq.Strings Require Import Byte String.
-From Coq Require Import List NArith Bool.
+From Coq Require Import List NArith ZArith Bool.
 Import ListNotations.
 From V Require Import lib.Bytes.
 
 Notation path := (list bytes * bytes)%type.     (* (directory components below the root, base name) *)
-Inductive entry := File (c : bytes) (mt : N) | Dir.
+Inductive entry := File (c : bytes) (mt : Z) | Dir.
 Notation fs := (path -> option entry).
 Notation listing := (list (path * entry)).
 
@@ -123,18 +127,29 @@ Section Handlers.
 Variable generate : path -> bytes -> option bytes.
 Variable keep : bool.      (* -keep-orphaned-files *)
 Variable lazy : bool.      (* -lazy *)
-Variable now : N.          (* modification time given to files written by this run *)
+Variable now : Z.          (* modification time given to files written by this run: any integer *)
 
 (* goFileIsUpToDate: os.Stat(go file) succeeds and its ModTime is After the .templ file's *)
-Definition newer (g : option entry) (mt : N) : bool :=
-  match g with Some (File _ gmt) => N.ltb mt gmt | _ => false end.
+Definition newer (g : option entry) (mt : Z) : bool :=
+  match g with Some (File _ gmt) => Z.ltb mt gmt | _ => false end.
+
+(* UpsertLastModTime: `previous := fileNameToLastModTime[name]; if !current.After(previous) {return current, false}`.
+   The map is empty when the process starts and each path gets one event, so `previous` is the zero time.Time:
+   January 1, year 1, 00:00:00 UTC = -62135596800 s relative to the Unix epoch.  A file first seen with a
+   modification time at or before that instant counts as "not updated" and its handler returns without doing
+   anything (no error).  Every later instant - before the Unix epoch, the epoch itself, the far future - is
+   "updated".  For a directory os.Stat gives the directory's own time, which the model does not have. *)
+Definition go_zero_time : Z := (-62135596800 * 1000000000)%Z.
+Definition first_seen_updated (e : entry) : bool :=
+  match e with File _ mt => Z.ltb go_zero_time mt | Dir => true end.
 
 (* HandleEvent for a Create event on p, split into what it reads (this function: the decision, from the tree)
    and what it writes ([apply_action]).  The second component is the number of errors sent to `errs`.
    - name ends in _templ.go: os.Stat(source); exists -> nothing; absent -> keep ? nothing : os.Remove(p).
      os.Remove of a directory that is not empty fails: a warning is logged, no error is counted, nothing changes
      (wf_tree: a directory called *_templ.go always keeps a file no handler removes)
-   - UpsertLastModTime: os.Stat(p) fails -> nothing (the map is empty at start and each path gets one event)
+   - UpsertLastModTime: os.Stat(p) fails -> nothing; modification time not After the zero time.Time -> nothing
+     ([first_seen_updated]; the map is empty at start and each path gets one event)
    - not .templ -> nothing
    - .templ: lazy && goFileIsUpToDate -> nothing; else generate: parse/generate/gofmt error -> 1 error, no write;
              ok -> write the sibling (UpsertHash: the hash map is empty in a non-watch run, so always written):
@@ -155,6 +170,7 @@ Definition effect (t : fs) (p : path) : action * nat :=
       match t p with
       | None => (ANone, O)
       | Some e =>
+          if negb (first_seen_updated e) then (ANone, O) else
           match target_of p with
           | None => (ANone, O)
           | Some g =>
@@ -238,7 +254,7 @@ Definition lazy_ok (generate : path -> bytes -> option bytes) (l : listing) (pe 
       | Some g =>
           match lookup l g with
           | Some (File gc gmt) =>
-              if N.ltb mt gmt then match generate (fst pe) c with Some code => bytes_eqb code gc | None => false end
+              if Z.ltb mt gmt then match generate (fst pe) c with Some code => bytes_eqb code gc | None => false end
               else true
           | Some Dir => false
           | None => true
@@ -260,9 +276,23 @@ Definition dir_name_ok (l : listing) (pe : path * entry) : bool :=
            | Some _ => stable_child l (fst pe)
            end
   end.
-Definition wf_tree (generate : path -> bytes -> option bytes) (lazy : bool) (root : bytes) (l : listing) : bool :=
+(* a template outside skipped directories carries a modification time After Go's zero time.Time (see
+   [first_seen_updated]; without this the full statement is false: props/C15.v, C15_zero_time_refuted).  No other
+   condition on modification times: negative, zero, equal and arbitrarily large ones are all admitted. *)
+Definition mtime_ok (pe : path * entry) : bool :=
+  match snd pe with
+  | Dir => true
+  | File _ mt =>
+      if visible_dir (fst (fst pe)) then
+        match target_of (fst pe) with Some _ => Z.ltb go_zero_time mt | None => true end
+      else true
+  end.
+(* everything but the condition on modification times *)
+Definition wf_shape (generate : path -> bytes -> option bytes) (lazy : bool) (root : bytes) (l : listing) : bool :=
   nodupb (map fst l)
   && negb (matches_pattern root)
   && forallb (fun pe => forallb valid_name (full (fst pe)) && parent_ok l (fst pe)) l
   && forallb (dir_name_ok l) l
   && (negb lazy || forallb (lazy_ok generate l) l).
+Definition wf_tree (generate : path -> bytes -> option bytes) (lazy : bool) (root : bytes) (l : listing) : bool :=
+  wf_shape generate lazy root l && forallb mtime_ok l.
